@@ -16,16 +16,19 @@ ARCH_FILES = {'sse_t1': 'sse_t1/mb_mgr_sse_t1.c', 'avx2_t1': 'avx2_t1/mb_mgr_avx
 STUBS.append(('JOBS', 'stub_JOBS'))
 _base_lock = __import__('threading').Lock()
 _bases = {}
+_key_locks = {}
 
 
 def build_base(ctx, entry, arch, witness=False, burst=4):
     """ring.c for one entry point, compiled once with goto-cc against the real variant file, contract stubs installed."""
     key = (entry, arch, witness, burst)
     with _base_lock:
+        lk = _key_locks.setdefault(key, __import__('threading').Lock())
+    with lk:
         if key in _bases:
             return _bases[key]
         inc = patched_header_dir(ctx, burst)
-        tag = 'ring_%s_%d%s' % (arch, entry, '_w' if witness else '')
+        tag = 'ring_%s_%d_b%d%s' % (arch, entry, burst, '_w' if witness else '')
         gb = os.path.join(ctx.scratch, tag + '.gb')
         defs = ['-DENTRY=%d' % entry, '-DARCH_FILE="%s"' % ARCH_FILES[arch]] + (['-DWITNESS'] if witness else [])
         gotocc(ctx, os.path.join(VERIF, 'cbmc', 'ring.c'), gb, defs=defs, incs=[inc], arch=arch)
@@ -57,16 +60,19 @@ def splits(entry, slots=8, burst=4):
     if entry == 7:
         return [(n0, -2, nj) for n0 in range(slots) for nj in range(burst + 2)]
     if entry == 8:
-        return [(n0, -2, nj) for n0 in range(slots) for nj in range(burst + 1)]
+        return [(n0, -2, nj) for n0 in range(slots) for nj in range(burst + 1)] if burst > 2 else [(-1, -2, -1)]
     if entry == 9:
-        return [(n0, -2, -1) for n0 in range(slots)]
+        return [(n0, -2, -1) for n0 in range(slots)] if burst > 2 else [(-1, -2, -1)]
     return [(-1, -2, -1)]
 
 
-def run_entries(ctx, entries, archs, unwind=10, timeout=1500, witness_for=(3, 8)):
+def run_entries(ctx, entries, archs, unwind=None, timeout=1500, witness_for=(3, 8), burst=None):
     for f in ('lib/include/mb_mgr_job_api.h', 'lib/include/mb_mgr_burst_async.h', 'lib/include/mb_mgr_code.h', 'lib/intel-ipsec-mb.h'):
         ctx.note_source(f)
-    ctx.bounds.update({'ring_slots': 8, 'IMB_MAX_BURST_SIZE(patched copy)': 4, 'cbmc_unwind': unwind,
+    burst = burst or (2 if ctx.quick() else 4)
+    slots = 2 * burst
+    unwind = unwind or (2 * burst + 2)
+    ctx.bounds.update({'ring_slots': slots, 'IMB_MAX_BURST_SIZE(patched copy)': burst, 'cbmc_unwind': unwind,
                        'pre_state': 'ANY ring state satisfying invariant R (arbitrary earliest/next, arbitrary statuses, arbitrary stale errno)',
                        'case_split': 'burst entry points: one query per (next_job slot, burst size); all else symbolic in each query'})
     ctx.assume('contract K1 stubs replace submit_new_job/complete_job/submit_new_burst_job/complete_burst_job: they may complete any '
@@ -74,7 +80,7 @@ def run_entries(ctx, entries, archs, unwind=10, timeout=1500, witness_for=(3, 8)
                '(the real validator is checked separately against the catalogue)')
     ctx.assume('JOBS(state, off) is phrased as &state->jobs[off/sizeof(IMB_JOB)] after asserting off is an in-range slot multiple '
                '(identical function on those offsets; keeps CBMC off byte-level reasoning over the whole manager)')
-    ctx.assume('ring of 8 slots: scratch copy of intel-ipsec-mb.h with the single line IMB_MAX_BURST_SIZE 128 -> 4 (checked: exactly one line differs); '
+    ctx.assume('small ring (quick: 4 slots, thorough: 8): scratch copy of intel-ipsec-mb.h with the single line IMB_MAX_BURST_SIZE 128 -> 2/4 (checked: exactly one line differs); '
                'the modular arithmetic is re-checked at the real size 256 in ring_arith')
     ctx.assume('a burst list is the expected consecutive slots with at most one corrupted entry (NULL or a foreign descriptor) and at most one '
                'corrupted suite id: the code stops at the first offender, so this is without loss of generality; enum-typed job fields hold enumerators')
@@ -82,15 +88,15 @@ def run_entries(ctx, entries, archs, unwind=10, timeout=1500, witness_for=(3, 8)
     work = []
     for a in archs:
         for e in entries:
-            for sp in splits(e):
+            for sp in splits(e, slots, burst):
                 work.append((a, e, False, sp))
     for e in witness_for:
         if e in entries:
-            work.append((archs[0], e, True, splits(e)[len(splits(e)) // 2]))
+            work.append((archs[0], e, True, splits(e, slots, burst)[len(splits(e, slots, burst)) // 2]))
 
     def one(w):
         a, e, wit, (n0, e0, nj) = w
-        base = build_base(ctx, e, a, wit)
+        base = build_base(ctx, e, a, wit, burst)
         q = link_cfg(ctx, base, n0, e0, nj)
         nm = '%sring step %s [%s]%s' % ('WITNESS ' if wit else '', ENTRIES[e], a,
                                         '' if n0 < 0 else ' next_job=slot %d%s' % (n0, '' if nj < 0 else ', n_jobs=%d' % nj))
@@ -98,7 +104,7 @@ def run_entries(ctx, entries, archs, unwind=10, timeout=1500, witness_for=(3, 8)
         return w, res, fails, log
 
     # compile the bases first (one per entry/arch), in parallel, then the queries
-    pool_map(lambda k: build_base(ctx, k[1], k[0], k[2]), sorted(set((w[0], w[1], w[2]) for w in work)), workers=NCPU)
+    pool_map(lambda k: build_base(ctx, k[1], k[0], k[2], burst), sorted(set((w[0], w[1], w[2]) for w in work)), workers=NCPU)
     seen = set()
     for r in pool_map(one, work, workers=NCPU):
         if isinstance(r, Exception):
